@@ -216,6 +216,9 @@ pub enum From_ {
     OrdersJoinPublicViaUsers,
     /// users LEFT JOIN orders: the unit table (unique id) on the preserved side, one-to-many
     UsersLeftJoinOrders,
+    /// two protected tables joined on a condition unrelated to the unit (pairs rows of different units unless the
+    /// tracking restricts the join to equal units)
+    OrdersFullJoinUsersOnKind,
 }
 
 #[derive(Clone, Copy, Debug, Serialize, Deserialize, PartialEq)]
@@ -255,6 +258,7 @@ impl DpQuery {
             From_::ItemsJoinOrders => ("items JOIN orders ON items.oid = orders.oid", "y", "x", Some("kind"), Some("pk")),
             From_::OrdersJoinPublicViaUsers => ("orders JOIN users ON orders.uid = users.id JOIN pub ON users.g = pub.g", "x", "v", Some("kind"), Some("pk")),
             From_::UsersLeftJoinOrders => ("users LEFT JOIN orders ON users.id = orders.uid", "x", "a", Some("g"), Some("pk")),
+            From_::OrdersFullJoinUsersOnKind => ("orders FULL JOIN users ON orders.kind = users.id", "x", "a", Some("g"), Some("pk")),
         };
         let _ = s;
         let mut keys: Vec<String> = vec![];
@@ -316,7 +320,7 @@ pub fn query_strategy(groups: Vec<Group>, allow_distinct: bool, allow_var: bool)
     (
         prop_oneof![
             15 => Just(From_::Users), 35 => Just(From_::Orders), 10 => Just(From_::Items), 20 => Just(From_::OrdersJoinUsers), 10 => Just(From_::ItemsJoinOrders),
-            10 => Just(From_::OrdersJoinPublicViaUsers), 10 => Just(From_::UsersLeftJoinOrders)
+            10 => Just(From_::OrdersJoinPublicViaUsers), 10 => Just(From_::UsersLeftJoinOrders), 6 => Just(From_::OrdersFullJoinUsersOnKind)
         ],
         proptest::collection::vec(agg_strategy(allow_distinct, allow_var), 1..4),
         prop::sample::select(groups),
